@@ -18,98 +18,52 @@ what the differential runs of the C20 check observe.
 namespace XixiKV.C20
 open XixiKV XixiKV.Frame XixiKV.Record XixiKV.Index XixiKV.Engine XixiKV.Engine.Restart XixiKV.Engine.MergeP XixiKV.Adopt
 
-/-- **C20.**  Let `db` be open on `s` with the invariant for the ghost directory `g`; let `dest` be
-    a directory that does not exist yet and that has no adoptable merge directory of its own
-    (`plan … dest = none`; in particular when `dest ++ "-merge"` does not exist).  Then `Backup`
-    succeeds and
+/-- **C20, a backup into a directory that is NOT empty** — typically the directory of an earlier
+    backup of the same database, or the directory a database used to live in.  `dest` is any
+    directory other than the data directory itself, not held open; whatever data files and hint file
+    it held before are gone or overwritten (`removeStaleBackupFiles` + `CopyDir`), and a merge
+    directory `dest ++ "-merge"` left next to it is REMOVED first (`removeStaleMergeDir`), so that
+    opening the copy has nothing to adopt.  Then `Backup` succeeds and
 
-    1. the source is unaffected: same handle, every directory other than `dest` unchanged, the
-       invariant still holds for `g`, every key maps to the same value;
-    2. `dest` now exists, is NOT locked, has no marker, and its data files are byte for byte the
-       ghost files `g` (`Matches`);
+    1. the source is unaffected: same handle, every directory other than `dest` and
+       `mergeDirName dest` unchanged, the invariant still holds for `g`, every key maps to the same
+       value; the directory `mergeDirName dest` does not exist afterwards (unless it IS the data
+       directory, which is never touched) and nothing is adoptable next to `dest`;
+    2. `dest` now exists, is NOT locked, and its data files are byte for byte the ghost files `g`
+       (`Matches`), its hint file is the source's (or absent);
     3. the copy opens: after `Close` of the source, `Open dest` with ANY valid configuration
        succeeds, satisfies the invariant for the same ghost directory `g` and maps every key to
        what the source mapped it to when `Backup` was called;
     4. the copy is independent: `Put` / `Delete` / `Sync` on the source after the backup leave the
-       directory `dest` untouched (so 3. keeps holding for the mapping at backup time). -/
-theorem C20_backup (s : St) (db : DB) (g : GDir) (dest : String) (cfg' : Cfg)
-    (hdb : s.db = some db) (hinv : Inv s db g)
-    (hfresh : s.world.get dest = none) (hplan : plan s.world dest = none) (hcfg : cfg'.Valid) :
-    ∃ s', backup s dest = (s', .ok) ∧
-      -- 1. source unaffected
-      s'.db = some db ∧ (∀ n, n ≠ dest → s'.world.get n = s.world.get n) ∧ Inv s' db g ∧
-      (∀ k, absGet s' db k = absGet s db k) ∧
-      -- 2. the copy
-      (∃ dd, s'.world.get dest = some dd ∧ dd.locked = false ∧ dd.marker = none ∧ Matches dd.data g) ∧
-      -- 3. the copy opens to the mapping at backup time
-      (∃ s'' db'', (close s').2 = .ok ∧ openDB (close s').1 dest cfg' = (s'', .ok) ∧ s''.db = some db'' ∧
-        db''.dir = dest ∧ db''.cfg = cfg' ∧ Inv s'' db'' g ∧ (∀ k, absGet s'' db'' k = absGet s db k)) ∧
-      -- 4. later source writes do not touch the copy
-      (∀ k v, (put s' k v).1.world.get dest = s'.world.get dest) ∧
-      (∀ k, (delete s' k).1.world.get dest = s'.world.get dest) ∧
-      ((syncDB s').1.world.get dest = s'.world.get dest) := by
-  obtain ⟨d, hd, hlock, hm⟩ := hinv.dir
-  have hne : dest ≠ db.dir := by
-    intro e; rw [e, hd] at hfresh; cases hfresh
-  have hasc : AscF d.data := Matches_AscF hm hinv.asc
-  have hb := backup_eq s db d dest hdb hd hfresh hasc
-  have hms : Matches (syncAll d.data) g := Matches_syncAll hm
-  obtain ⟨S, hS⟩ : ∃ S : St, S = ⟨s.world.set dest ⟨syncAll d.data, d.hint, none, false⟩, s.db⟩ := ⟨_, rfl⟩
-  rw [← hS] at hb
-  have hSw : S.world = s.world.set dest ⟨syncAll d.data, d.hint, none, false⟩ := by rw [hS]
-  have hSdb : S.db = some db := by rw [hS]; exact hdb
-  have hSd : S.world.get db.dir = some d := by rw [hSw, MergeP.get_set_ne _ _ _ _ hne.symm]; exact hd
-  have hSdest : S.world.get dest = some ⟨syncAll d.data, d.hint, none, false⟩ := by rw [hSw, MergeP.get_set_self]
-  refine ⟨S, hb, hSdb, ?_, ?_, ?_, ?_, ?_, ?_, ?_, ?_⟩
-  · intro n hn; rw [hSw]; exact MergeP.get_set_ne _ _ _ _ hn
-  · exact ⟨⟨d, hSd, hlock, hm⟩, hinv.asc, hinv.active, hinv.recs,
-      hinv.index, hinv.sorted, hinv.counters, hinv.nobatch⟩
-  · intro k
-    apply absGet_congr _ _ _ _ rfl
-    intro id
-    simp only [dirOf, hSd, hd]
-  · exact ⟨_, hSdest, rfl, rfl, hms⟩
-  · -- open the copy
-    have hclose := close_eq S db d hSdb hSd
-    rw [hclose]
-    simp only []
-    have hplan' : plan (S.world.set db.dir { d with data := syncAll d.data, locked := false }) dest = none := by
-      rw [plan_set S.world db.dir dest { d with data := syncAll d.data, locked := false } (Or.inr ⟨d, hSd, rfl⟩), hSw,
-        plan_set _ _ _ _ (Or.inl (mname_ne dest).symm)]
-      exact hplan
-    have hopen := openDB_ghost
-      { world := S.world.set db.dir { d with data := syncAll d.data, locked := false }, db := none }
-      dest cfg' ⟨syncAll d.data, d.hint, none, false⟩ g db.activeId rfl hcfg
-      (by show World.get _ dest = _; rw [MergeP.get_set_ne _ _ _ _ hne, hSdest]) rfl hplan' hms hinv.recs hinv.active
-    have hinv'' := Inv_scanDB
-      ((S.world.set db.dir { d with data := syncAll d.data, locked := false }).set dest
-        { (⟨syncAll d.data, d.hint, none, false⟩ : DirSt) with locked := true })
-      dest cfg' _ g db.activeId (MergeP.get_set_self _ _ _) rfl hms hinv.asc hinv.recs hinv.active
-      { world := _, db := some (scanDB cfg' dest db.activeId g) } rfl
-    exact ⟨_, _, trivial, hopen, rfl, rfl, rfl, hinv'', fun k => absGet_same_ghost hinv'' hinv k⟩
-  · intro k v; exact put_get_other S k v db hSdb dest hne
-  · intro k; exact delete_get_other S k db hSdb dest hne
-  · exact syncDB_get_other S db hSdb dest hne
+       directory `dest` untouched (so 3. keeps holding for the mapping at backup time).
 
-/-- **C20, a backup into a directory that is NOT empty** — typically the directory of an earlier
-    backup of the same database.  `dest` is any directory other than the data directory itself, not
-    held open, without an adoptable merge directory of its own; whatever data files and hint file it
-    held before are gone or overwritten (`removeStaleBackupFiles` + `CopyDir`): the copy's data files
-    are byte for byte the ghost files `g` and its hint file is the source's (or absent), so that all
-    four clauses of `C20_backup` hold again.  (Before repair ca47810 `CopyDir` only added and
-    overwrote: a data file that a merge had reclaimed in the source meanwhile survived in `dest`
-    and was replayed when the copy was opened — deleted keys came back, overwritten values
-    returned; the hypothesis `hfresh` of `C20_backup` excluded exactly that.) -/
+    History of the hypotheses.  (a) Before repair ca47810 `CopyDir` only added and overwrote: a data
+    file that a merge had reclaimed in the source meanwhile survived in `dest` and was replayed when
+    the copy was opened — deleted keys came back; the hypothesis `hfresh` of `C20_backup` excluded
+    exactly that.  (b) Before repair 88d026d `Backup` never looked at `dest ++ "-merge"`: a finished
+    merge directory left there by a database that used to live at `dest` was ADOPTED over the freshly
+    copied files when the copy was opened (reproduced on the code: 94 of 500 keys wrong); the proof
+    of clause 3 had forced the hypothesis `plan s.world dest = none`, which excluded exactly that
+    point.  With the repair that hypothesis is gone: `hplan` below is asked ONLY in the corner where
+    `dest ++ "-merge"` is the source's own data directory (`dest = "x"`, `db.dir = "x-merge"`),
+    which `Backup` must not remove; there it says that the live data directory does not carry an
+    adoptable merge marker (the invariant `Inv` does not speak about the marker of the data
+    directory).  For every other `dest` it is discharged by `fun e => absurd e h`
+    (`C20_backup_over'`). -/
 theorem C20_backup_over (s : St) (db : DB) (g : GDir) (dest : String) (cfg' : Cfg)
     (hdb : s.db = some db) (hinv : Inv s db g)
     (hne : dest ≠ db.dir) (hunl : ((s.world.get dest).getD DirSt.empty).locked = false)
-    (hplan : plan s.world dest = none) (hcfg : cfg'.Valid) :
+    (hplan : mergeDirName dest = db.dir → plan s.world dest = none) (hcfg : cfg'.Valid) :
     ∃ s', backup s dest = (s', .ok) ∧
-      -- 1. source unaffected
-      s'.db = some db ∧ (∀ n, n ≠ dest → s'.world.get n = s.world.get n) ∧ Inv s' db g ∧
+      -- 1. source unaffected; the stale merge directory next to `dest` is gone
+      s'.db = some db ∧ (∀ n, n ≠ dest → n ≠ mergeDirName dest → s'.world.get n = s.world.get n) ∧
+      (s'.world.get (mergeDirName dest) = if mergeDirName dest = db.dir then s.world.get db.dir else none) ∧
+      plan s'.world dest = none ∧
+      Inv s' db g ∧
       (∀ k, absGet s' db k = absGet s db k) ∧
       -- 2. the copy
-      (∃ dd, s'.world.get dest = some dd ∧ dd.locked = false ∧ Matches dd.data g ∧ dd.hint = (dirOf s db).hint) ∧
+      (∃ dd, s'.world.get dest = some dd ∧ dd.locked = false ∧ Matches dd.data g ∧ dd.hint = (dirOf s db).hint ∧
+        dd.marker = ((s.world.get dest).getD DirSt.empty).marker) ∧
       -- 3. the copy opens to the mapping at backup time
       (∃ s'' db'', (close s').2 = .ok ∧ openDB (close s').1 dest cfg' = (s'', .ok) ∧ s''.db = some db'' ∧
         db''.dir = dest ∧ db''.cfg = cfg' ∧ Inv s'' db'' g ∧ (∀ k, absGet s'' db'' k = absGet s db k)) ∧
@@ -120,31 +74,39 @@ theorem C20_backup_over (s : St) (db : DB) (g : GDir) (dest : String) (cfg' : Cf
   obtain ⟨d, hd, hlock, hm⟩ := hinv.dir
   have hb := backup_eq' s db d dest hdb hd
   rw [hunl] at hb
-  generalize ((s.world.get dest).getD DirSt.empty).marker = mk at hb
+  have hW := backupWorld_get s db dest
+  have hWd : (backupWorld s db dest).get db.dir = some d := by rw [backupWorld_get_dir]; exact hd
+  have hWm := backupWorld_get_mname s db dest
+  have hWp := backupWorld_plan s db dest hplan
+  generalize backupWorld s db dest = W at hb hW hWd hWm hWp
+  obtain ⟨mk, hmk⟩ : ∃ mk, mk = ((s.world.get dest).getD DirSt.empty).marker := ⟨_, rfl⟩
+  rw [← hmk] at hb
   have hms : Matches (syncAll d.data) g := Matches_syncAll hm
-  obtain ⟨S, hS⟩ : ∃ S : St, S = ⟨s.world.set dest ⟨syncAll d.data, d.hint, mk, false⟩, s.db⟩ := ⟨_, rfl⟩
+  obtain ⟨S, hS⟩ : ∃ S : St, S = ⟨W.set dest ⟨syncAll d.data, d.hint, mk, false⟩, s.db⟩ := ⟨_, rfl⟩
   rw [← hS] at hb
-  have hSw : S.world = s.world.set dest ⟨syncAll d.data, d.hint, mk, false⟩ := by rw [hS]
+  have hSw : S.world = W.set dest ⟨syncAll d.data, d.hint, mk, false⟩ := by rw [hS]
   have hSdb : S.db = some db := by rw [hS]; exact hdb
-  have hSd : S.world.get db.dir = some d := by rw [hSw, MergeP.get_set_ne _ _ _ _ hne.symm]; exact hd
+  have hSd : S.world.get db.dir = some d := by rw [hSw, MergeP.get_set_ne _ _ _ _ hne.symm]; exact hWd
   have hSdest : S.world.get dest = some ⟨syncAll d.data, d.hint, mk, false⟩ := by rw [hSw, MergeP.get_set_self]
-  refine ⟨S, hb, hSdb, ?_, ?_, ?_, ?_, ?_, ?_, ?_, ?_⟩
-  · intro n hn; rw [hSw]; exact MergeP.get_set_ne _ _ _ _ hn
+  have hSp : plan S.world dest = none := by
+    rw [hSw, plan_set _ _ _ _ (Or.inl (mname_ne dest).symm)]; exact hWp
+  refine ⟨S, hb, hSdb, ?_, ?_, hSp, ?_, ?_, ?_, ?_, ?_, ?_, ?_⟩
+  · intro n hn hn'; rw [hSw, MergeP.get_set_ne _ _ _ _ hn]; exact hW n hn'
+  · rw [hSw, MergeP.get_set_ne _ _ _ _ (mname_ne dest)]; exact hWm
   · exact ⟨⟨d, hSd, hlock, hm⟩, hinv.asc, hinv.active, hinv.recs,
       hinv.index, hinv.sorted, hinv.counters, hinv.nobatch⟩
   · intro k
     apply absGet_congr _ _ _ _ rfl
     intro id
     simp only [dirOf, hSd, hd]
-  · exact ⟨_, hSdest, rfl, hms, by simp only [dirOf, hd, Option.getD_some]⟩
+  · exact ⟨_, hSdest, rfl, hms, by simp only [dirOf, hd, Option.getD_some], hmk⟩
   · -- open the copy
     have hclose := close_eq S db d hSdb hSd
     rw [hclose]
     simp only []
     have hplan' : plan (S.world.set db.dir { d with data := syncAll d.data, locked := false }) dest = none := by
-      rw [plan_set S.world db.dir dest { d with data := syncAll d.data, locked := false } (Or.inr ⟨d, hSd, rfl⟩), hSw,
-        plan_set _ _ _ _ (Or.inl (mname_ne dest).symm)]
-      exact hplan
+      rw [plan_set S.world db.dir dest { d with data := syncAll d.data, locked := false } (Or.inr ⟨d, hSd, rfl⟩)]
+      exact hSp
     have hopen := openDB_ghost
       { world := S.world.set db.dir { d with data := syncAll d.data, locked := false }, db := none }
       dest cfg' ⟨syncAll d.data, d.hint, mk, false⟩ g db.activeId rfl hcfg
@@ -158,6 +120,74 @@ theorem C20_backup_over (s : St) (db : DB) (g : GDir) (dest : String) (cfg' : Cf
   · intro k v; exact put_get_other S k v db hSdb dest hne
   · intro k; exact delete_get_other S k db hSdb dest hne
   · exact syncDB_get_other S db hSdb dest hne
+
+/-- `C20_backup_over` for every destination whose sibling `dest ++ "-merge"` is not the source's own
+    data directory — NO hypothesis about what lies next to `dest`: whatever merge directory was
+    there (finished, with a marker, foreign) does not exist afterwards. -/
+theorem C20_backup_over' (s : St) (db : DB) (g : GDir) (dest : String) (cfg' : Cfg)
+    (hdb : s.db = some db) (hinv : Inv s db g)
+    (hne : dest ≠ db.dir) (hmn : mergeDirName dest ≠ db.dir)
+    (hunl : ((s.world.get dest).getD DirSt.empty).locked = false) (hcfg : cfg'.Valid) :
+    ∃ s', backup s dest = (s', .ok) ∧
+      s'.db = some db ∧ (∀ n, n ≠ dest → n ≠ mergeDirName dest → s'.world.get n = s.world.get n) ∧
+      s'.world.get (mergeDirName dest) = none ∧
+      plan s'.world dest = none ∧
+      Inv s' db g ∧
+      (∀ k, absGet s' db k = absGet s db k) ∧
+      (∃ dd, s'.world.get dest = some dd ∧ dd.locked = false ∧ Matches dd.data g ∧ dd.hint = (dirOf s db).hint ∧
+        dd.marker = ((s.world.get dest).getD DirSt.empty).marker) ∧
+      (∃ s'' db'', (close s').2 = .ok ∧ openDB (close s').1 dest cfg' = (s'', .ok) ∧ s''.db = some db'' ∧
+        db''.dir = dest ∧ db''.cfg = cfg' ∧ Inv s'' db'' g ∧ (∀ k, absGet s'' db'' k = absGet s db k)) ∧
+      (∀ k v, (put s' k v).1.world.get dest = s'.world.get dest) ∧
+      (∀ k, (delete s' k).1.world.get dest = s'.world.get dest) ∧
+      ((syncDB s').1.world.get dest = s'.world.get dest) := by
+  obtain ⟨s', h0, h1, h2, h3, h⟩ := C20_backup_over s db g dest cfg' hdb hinv hne hunl (fun e => absurd e hmn) hcfg
+  rw [if_neg hmn] at h3
+  exact ⟨s', h0, h1, h2, h3, h⟩
+
+/-- **C20.**  Let `db` be open on `s` with the invariant for the ghost directory `g`; let `dest` be
+    a directory that does not exist yet.  Nothing is asked about `dest ++ "-merge"`: a merge directory
+    left there is removed by `Backup` (repair 88d026d; before it the hypothesis
+    `plan s.world dest = none` was needed and excluded a real defect, see `C20_backup_over`) — except
+    in the corner where `dest ++ "-merge"` is the source's own data directory, where `hplan` says
+    that the live data directory carries no adoptable marker.  Then `Backup` succeeds and
+
+    1. the source is unaffected: same handle, every directory other than `dest` and
+       `mergeDirName dest` unchanged, `mergeDirName dest` does not exist afterwards (unless it is
+       the data directory), the invariant still holds for `g`, every key maps to the same value;
+    2. `dest` now exists, is NOT locked, has no marker, and its data files are byte for byte the
+       ghost files `g` (`Matches`);
+    3. the copy opens: after `Close` of the source, `Open dest` with ANY valid configuration
+       succeeds, satisfies the invariant for the same ghost directory `g` and maps every key to
+       what the source mapped it to when `Backup` was called;
+    4. the copy is independent: `Put` / `Delete` / `Sync` on the source after the backup leave the
+       directory `dest` untouched (so 3. keeps holding for the mapping at backup time). -/
+theorem C20_backup (s : St) (db : DB) (g : GDir) (dest : String) (cfg' : Cfg)
+    (hdb : s.db = some db) (hinv : Inv s db g)
+    (hfresh : s.world.get dest = none)
+    (hplan : mergeDirName dest = db.dir → plan s.world dest = none) (hcfg : cfg'.Valid) :
+    ∃ s', backup s dest = (s', .ok) ∧
+      -- 1. source unaffected
+      s'.db = some db ∧ (∀ n, n ≠ dest → n ≠ mergeDirName dest → s'.world.get n = s.world.get n) ∧
+      (s'.world.get (mergeDirName dest) = if mergeDirName dest = db.dir then s.world.get db.dir else none) ∧
+      Inv s' db g ∧
+      (∀ k, absGet s' db k = absGet s db k) ∧
+      -- 2. the copy
+      (∃ dd, s'.world.get dest = some dd ∧ dd.locked = false ∧ dd.marker = none ∧ Matches dd.data g) ∧
+      -- 3. the copy opens to the mapping at backup time
+      (∃ s'' db'', (close s').2 = .ok ∧ openDB (close s').1 dest cfg' = (s'', .ok) ∧ s''.db = some db'' ∧
+        db''.dir = dest ∧ db''.cfg = cfg' ∧ Inv s'' db'' g ∧ (∀ k, absGet s'' db'' k = absGet s db k)) ∧
+      -- 4. later source writes do not touch the copy
+      (∀ k v, (put s' k v).1.world.get dest = s'.world.get dest) ∧
+      (∀ k, (delete s' k).1.world.get dest = s'.world.get dest) ∧
+      ((syncDB s').1.world.get dest = s'.world.get dest) := by
+  obtain ⟨d, hd, _, _⟩ := hinv.dir
+  have hne : dest ≠ db.dir := by
+    intro e; rw [e, hd] at hfresh; cases hfresh
+  obtain ⟨s', h0, h1, h2, h3, _, h5, h6, ⟨dd, hdd, hl, hmt, _, hmk⟩, h8⟩ :=
+    C20_backup_over s db g dest cfg' hdb hinv hne (by rw [hfresh]; rfl) hplan hcfg
+  rw [hfresh] at hmk
+  exact ⟨s', h0, h1, h2, h3, h5, h6, ⟨dd, hdd, hl, hmk, hmt⟩, h8⟩
 
 /-! ## the mmap path of `Backup`: `ResetFileSize` shrinks the 512 MiB-extended files first, and the
     source keeps appending afterwards (`Model/Fio.lean`) -/
@@ -183,9 +213,9 @@ theorem C20_mmap_reset_needs_unmap (B : Nat) (hB : 0 < B) (f : Fio.OsFile) (b : 
 example : ∃ s', backup C02.exSt "b" = (s', .ok) ∧ Inv s' C02.exDB C02.exG ∧
     ∃ s'' db'', openDB (close s').1 "b" { fileSize := 7, sync := 1, bps := 3, idx := 2, io := 1, shards := 64 } = (s'', .ok) ∧
       s''.db = some db'' ∧ ∀ k, absGet s'' db'' k = absGet C02.exSt C02.exDB k := by
-  obtain ⟨s', h1, _, _, h2, _, _, ⟨s'', db'', _, h3, h4, _, _, _, h5⟩, _⟩ := C20_backup C02.exSt C02.exDB C02.exG "b"
+  obtain ⟨s', h1, _, _, _, h2, _, _, ⟨s'', db'', _, h3, h4, _, _, _, h5⟩, _⟩ := C20_backup C02.exSt C02.exDB C02.exG "b"
     { fileSize := 7, sync := 1, bps := 3, idx := 2, io := 1, shards := 64 } rfl C02.exInv
-    (by simp [C02.exSt, World.get]) (by simp [Adopt.plan, C02.exSt, World.get, mergeDirName]) (by decide)
+    (by simp [C02.exSt, World.get]) (by simp [C02.exDB, mergeDirName]) (by decide)
   exact ⟨s', h1, h2, s'', db'', h3, h4, h5⟩
 
 /-- evaluated: the copy is unlocked and holds the same bytes; the value read through the copy -/
@@ -197,6 +227,68 @@ def exAfter : St := (backup C02.exSt "b").1
   | s'' => match s''.db with
     | some db'' => (absGet s'' db'' "k".toUTF8).map (·.data.toList) == some "v".toUTF8.data.toList
     | none => false)
+
+/-! ## non-vacuity of `C20_backup_over'`: the destination holds an older database AND a finished merge
+    directory lies next to it (the point the dropped hypothesis `plan s.world dest = none` excluded) -/
+
+def cfgB : Cfg := { fileSize := 60, sync := 0, bps := 0, idx := 0, io := 0, shards := 1 }
+
+/-- a database used to live at "b": three `Put`s (one record per file), a successful `Merge`, `Close` —
+    never reopened: "b" holds files 0…3, "b-merge" the two rewritten files under a marker -/
+def oldB : World :=
+  (close (merge (put (put (put (openDB St.init "b" cfgB).1 "k".toUTF8 "OLD".toUTF8).1 "x".toUTF8 "1".toUTF8).1
+    "k".toUTF8 "OLD2".toUTF8).1 [0, 1, 2]).1).1.world
+
+/-- the source of C02 (`k ↦ v` in "d", open), in a world that also holds the old "b" and its "b-merge"
+    (the lock bit of "b" is written once more — `Close` had cleared it already, see the `#guard` on `oldB` — so that
+    "not held open" is proved by rewriting, without evaluating `Merge` in the kernel) -/
+def exSt2 : St :=
+  { world := (oldB.set "b" { (oldB.get "b").getD DirSt.empty with locked := false }).set "d"
+      ((C02.exSt.world.get "d").getD DirSt.empty),
+    db := some C02.exDB }
+
+theorem exUnl2 : ((exSt2.world.get "b").getD DirSt.empty).locked = false := by
+  show ((World.get (World.set (World.set _ "b" _) "d" _) "b").getD DirSt.empty).locked = false
+  rw [MergeP.get_set_ne _ _ _ _ (by decide), MergeP.get_set_self]
+  rfl
+
+theorem exInv2 : Inv exSt2 C02.exDB C02.exG :=
+  have hw : exSt2.world.get C02.exDB.dir = C02.exSt.world.get C02.exDB.dir := by
+    show World.get (World.set _ "d" _) "d" = _
+    rw [MergeP.get_set_self]; rfl
+  ⟨by rw [hw]; exact C02.exInv.dir, C02.exInv.asc, C02.exInv.active, C02.exInv.recs, C02.exInv.index,
+    C02.exInv.sorted, C02.exInv.counters, C02.exInv.nobatch⟩
+
+/-- the theorem applies (no hypothesis about "b-merge"), and the merge directory is gone afterwards -/
+example : ∃ s', backup exSt2 "b" = (s', .ok) ∧ s'.world.get "b-merge" = none ∧ plan s'.world "b" = none ∧
+    ∃ s'' db'', openDB (close s').1 "b" cfgB = (s'', .ok) ∧ s''.db = some db'' ∧
+      ∀ k, absGet s'' db'' k = absGet exSt2 C02.exDB k := by
+  obtain ⟨s', h1, _, _, h2, h3, _, _, _, ⟨s'', db'', _, h4, h5, _, _, _, h6⟩, _⟩ :=
+    C20_backup_over' exSt2 C02.exDB C02.exG "b" cfgB rfl exInv2 (by decide) (by decide) exUnl2 (by decide)
+  exact ⟨s', h1, h2, h3, s'', db'', h4, h5, h6⟩
+
+def dumpOf (s : St) (keys : List String) : List (Option (List UInt8)) :=
+  match s.db with
+  | some db => keys.map fun k => (absGet s db k.toUTF8).map (·.data.toList)
+  | none => []
+
+private def shape (w : World) : List (String × List Nat × Bool × Bool) :=
+  w.map (fun x => (x.1, x.2.data.map (·.1), x.2.marker.isSome, x.2.locked))
+
+-- evaluated.  Before: the old database in "b", its finished merge in "b-merge" (adoptable: `plan = some (3, 2)`)
+#guard shape oldB == [("b", [0, 1, 2, 3], false, false), ("b-merge", [0, 1], true, false)]
+#guard shape exSt2.world == [("b", [0, 1, 2, 3], false, false), ("b-merge", [0, 1], true, false), ("d", [0], false, true)]
+#guard plan exSt2.world "b" == some (3, 2)
+-- after `Backup`: "b" holds exactly the source's file, "b-merge" is gone, nothing is adoptable
+#guard shape (backup exSt2 "b").1.world == [("b", [0], false, false), ("d", [0], false, true)]
+#guard plan (backup exSt2 "b").1.world "b" == none
+-- the copy opens to the source's mapping `k ↦ v`, `x` absent
+#guard dumpOf exSt2 ["k", "x"] == [some "v".toUTF8.data.toList, none]
+#guard dumpOf (openDB (close (backup exSt2 "b").1).1 "b" cfgB).1 ["k", "x"] == dumpOf exSt2 ["k", "x"]
+-- the defect, replayed on the model: the same copy WITHOUT the removal (the pre-88d026d `Backup`) opens to the
+-- mapping of the foreign merge, `k ↦ OLD2`, `x ↦ 1` - neither is in the source
+#guard dumpOf (openDB (close ⟨exSt2.world.set "b" (((backup exSt2 "b").1.world.get "b").getD DirSt.empty),
+    exSt2.db⟩).1 "b" cfgB).1 ["k", "x"] == [some "OLD2".toUTF8.data.toList, some "1".toUTF8.data.toList]
 
 end XixiKV.C20
 
